@@ -160,10 +160,10 @@ type Param struct {
 
 // Proc is a generated procedure.
 type Proc struct {
-	Name   string
-	Params []Param
-	Chars  []string // characteristics as written
-	Body   string
+	Name    string
+	Params  []Param
+	Chars   []string // characteristics as written
+	Body    string
 	Comment string
 }
 
